@@ -1,5 +1,6 @@
 import json, sys
-REPO='/repo/'
+import os
+REPO=os.environ.get('C14_REPO','/repo').rstrip('/')+'/'
 out=[]
 def src(f): return open(REPO+f).read()
 def entry(name, kind, file, find, replace, expect=None, note=None, edits=None):
@@ -340,6 +341,40 @@ def multi(kind,name,eds,expect=None,note=None):
 multi("mutant","M61: ply ASCII vertex readers: width check moved into asciiField, Vector4 fills a missing trailing alpha with 1/255 (seed C14-r41)",R41,["TOK-2"],"existing tests: pass")
 multi("mutant","M62: ply ASCII vertex readers: asciiField answers 0, nil for a column that is not on the line",R41_COLZERO,["TOK-2"])
 multi("refactor","R28: ply ASCII vertex readers: width check moved into the per-column helper asciiField, every column (W included) fails on a missing token",R41_OK)
+
+# ---- round 5: optional columns decided the same way on every line (TOK-3) ----
+# The entries are written against whichever text the repository holds: before the repair of
+# pts.ReadPointCloud (fields latch) they carry the repair as their first edits, afterwards they are single
+# edits of the repaired text. Re-run this generator after the fix is committed.
+SHORTCHK="\t\tif len(contents) < 3 {\n\t\t\treturn nil, fmt.Errorf(\"pts point %d has %d fields, expected at least 3: %w\", curLine, len(contents), io.ErrUnexpectedEOF)\n\t\t}\n"
+LATCH="\n\t\tif fields < 0 {\n\t\t\tfields = len(contents)\n\t\t} else if len(contents) != fields {\n\t\t\treturn nil, fmt.Errorf(\"pts point %d has %d fields, expected %d: %w\", curLine, len(contents), fields, io.ErrUnexpectedEOF)\n\t\t}\n"
+REPAIRED = "fields := -1" in src(PTS)
+def latch_variant(name, kind, latch, expect=None, note=None, extra=None):
+    if REPAIRED:
+        eds=[(PTS,LATCH,latch)]
+    else:
+        eds=[(PTS,"\tcurLine := 0\n","\tfields := -1\n\tcurLine := 0\n"),(PTS,SHORTCHK,SHORTCHK+latch)]
+    eds += (extra or [])
+    f,a,b=eds[0]
+    entry(name,kind,f,a,b,expect,note,eds[1:])
+if not REPAIRED:
+    latch_variant("R29: pts.ReadPointCloud: field count of the first point latched (fields := -1), later lines with another count rejected (the intended repair)","refactor",LATCH,note="becomes the repository text once the fix is committed; then dropped by the generator")
+# The mutants are emitted only once the repair is in the repository: before that the unchanged tree already
+# reports the same TOK-3 constructs and the self-validation (which ignores baseline reports) would count them as missed.
+MUT = latch_variant if REPAIRED else (lambda *a, **k: None)
+MUT("M63: pts field-count latch rejects only longer lines (len(contents) > fields): the cut last line passes","mutant",
+ LATCH.replace("len(contents) != fields","len(contents) > fields"),["TOK-3"])
+MUT("M63b: pts field-count latch rejects only shorter lines (len(contents) < fields instead of !=): lines longer than the first are accepted and the first keeps placeholders","mutant",
+ LATCH.replace("len(contents) != fields","len(contents) < fields"),["TOK-3"],"not a truncation defect by itself (the cut line is rejected); violates the same invariant")
+MUT("M64: pts field-count latch re-assigned on every line before it is compared (the test is always true)","mutant",
+ "\n\t\tif fields >= 0 && len(contents) != fields {\n\t\t\tfields = len(contents)\n\t\t}\n\t\tif fields < 0 {\n\t\t\tfields = len(contents)\n\t\t}\n",["TOK-3"])
+MUT("M65: pts field count latched but never compared","mutant","\n\t\tif fields < 0 {\n\t\t\tfields = len(contents)\n\t\t}\n",["TOK-3"],
+ extra=[(PTS,"\tif curLine < parsedCount {","\t_ = fields\n\tif curLine < parsedCount {")])
+latch_variant("R30: pts field-count latch written as two ifs with the sentinel tested by == -1","refactor",
+ "\n\t\tif fields == -1 {\n\t\t\tfields = len(contents)\n\t\t}\n\t\tif fields != len(contents) {\n\t\t\treturn nil, fmt.Errorf(\"pts point %d has %d fields, expected %d: %w\", curLine, len(contents), fields, io.ErrUnexpectedEOF)\n\t\t}\n")
+latch_variant("R31: pts field-count check placed after the stores of the line (still before the line is counted): a differing line ends in the same error, nothing is returned",
+ "refactor","",note="behaviourally equivalent: the rule is about accepted lines, not about the position of the check",
+ extra=[(PTS,"\t\tcurLine++\n","\t\tif fields < 0 {\n\t\t\tfields = len(contents)\n\t\t} else if len(contents) != fields {\n\t\t\treturn nil, fmt.Errorf(\"pts point %d has %d fields, expected %d: %w\", curLine, len(contents), fields, io.ErrUnexpectedEOF)\n\t\t}\n\t\tcurLine++\n")])
 
 # sanity: every fragment present when applied sequentially
 bad=0
